@@ -949,38 +949,55 @@ fn run_threads(cfg: &Value) -> Value {
     use std::sync::{Arc, Barrier};
     let nthreads = cfg["threads"].as_u64().unwrap_or(8) as usize;
     let rounds = cfg["rounds"].as_u64().unwrap_or(4) as usize;
-    let step = cfg["step"].clone();
+    // `steps`: thread t runs steps[t % len] (calls with DIFFERENT arguments race the first use of whatever they share); `step`: all the same
+    let steps: Vec<Value> = match cfg["steps"].as_array() {
+        Some(a) if !a.is_empty() => a.clone(),
+        _ => vec![cfg["step"].clone()],
+    };
+    let pick = |o: &Value| json!({"prove": o["prove"], "verify": o["verify"], "verify_each": o["verify_each"], "gens": o["gens"], "gi": o["gi"], "hi": o["hi"], "g": o["g"], "h": o["h"],
+        "g_compressed_accessor": o["g_compressed_accessor"], "precomp_units": o["precomp_units"], "panic": o["panic"]});
     let mut diffs = Vec::new();
-    let mut reference: Option<String> = None;
+    let mut reference: Vec<Option<String>> = vec![None; steps.len()];
     for round in 0..rounds {
         let barrier = Arc::new(Barrier::new(nthreads));
         let handles: Vec<_> = (0..nthreads)
-            .map(|_| {
+            .map(|t| {
                 let b = barrier.clone();
-                let st = step.clone();
+                let st = steps[t % steps.len()].clone();
                 std::thread::spawn(move || {
                     b.wait();
-                    let o = match catch_unwind(AssertUnwindSafe(|| dispatch(&st))) {
+                    match catch_unwind(AssertUnwindSafe(|| dispatch(&st))) {
                         Ok(o) => o,
                         Err(_) => json!({"panic": true}),
-                    };
-                    json!({"prove": o["prove"], "verify": o["verify"], "verify_each": o["verify_each"], "gens": o["gens"], "panic": o["panic"]}).to_string()
+                    }
                 })
             })
             .collect();
         for (ti, h) in handles.into_iter().enumerate() {
-            let got = h.join().unwrap_or_else(|_| "thread panicked".to_string());
-            match &reference {
-                None => reference = Some(got),
+            let got = match h.join() {
+                Ok(o) => pick(&o).to_string(),
+                Err(_) => "thread panicked".to_string(),
+            };
+            let k = ti % steps.len();
+            match &reference[k] {
+                None => reference[k] = Some(got),
                 Some(r) => {
                     if *r != got && diffs.len() < 4 {
-                        diffs.push(json!({"round": round, "thread": ti, "reference": r.chars().take(600).collect::<String>(), "got": got.chars().take(600).collect::<String>()}));
+                        diffs.push(json!({"round": round, "thread": ti, "step": k, "reference": r.chars().take(600).collect::<String>(), "got": got.chars().take(600).collect::<String>()}));
                     }
                 },
             }
         }
     }
-    json!({"threads": nthreads, "rounds": rounds, "differences": diffs, "reference": reference})
+    // after the races: every step once more, sequentially, in this process (what a racing initialisation left behind serves later calls)
+    let after: Vec<Value> = steps
+        .iter()
+        .map(|st| match catch_unwind(AssertUnwindSafe(|| dispatch(st))) {
+            Ok(o) => pick(&o),
+            Err(_) => json!({"panic": true}),
+        })
+        .collect();
+    json!({"threads": nthreads, "rounds": rounds, "differences": diffs, "reference": reference[0], "references": reference, "after": after})
 }
 
 fn main() {
